@@ -369,6 +369,23 @@ impl PreferenceManager {
         return Ok(());
     }
 
+    /// Recompute the locations of the rule files for the current preferences.
+    /// A file that didn't exist earlier (so that a fallback location was used) might exist now.
+    pub fn recompute_file_locations(&mut self) -> Result<()> {
+        let rules_dir = self.rules_dir.clone();
+        let mut language = self.pref_to_string("Language");
+        if language == "Auto" {
+            language = self.pref_to_string("LanguageAuto");
+            if language.is_empty() || language == "Auto" {
+                language = "en".to_string();
+            }
+        }
+        self.set_speech_files(&rules_dir.join("Languages"), &language, None)?;  // also sets style file
+        let braille_code = self.pref_to_string("BrailleCode");
+        self.set_braille_files(&rules_dir.join("Braille"), &braille_code)?;
+        return Ok(());
+    }
+
     fn set_speech_files(&mut self, language_dir: &Path, language: &str, new_speech_style: Option<&str>) -> Result<()> {
         PreferenceManager::unzip_files(language_dir, language, Some("en"))?;
         self.intent = PreferenceManager::find_file(language_dir, language, Some("en"), "intent.yaml")?;
